@@ -169,8 +169,10 @@ func (e *nEnv) stateKey(phys []physVer) string {
 	}
 	sb.WriteString("|snaps=")
 	for _, s := range e.snaps {
-		fmt.Fprintf(&sb, "%d:%v,", s.sn, s.closed)
+		_, rc := nitro.VerifSnapshotInfo(s.s)
+		fmt.Fprintf(&sb, "%d:%v:%d,", s.sn, s.closed, rc)
 	}
+	fmt.Fprintf(&sb, "|open=%v", nitro.VerifOpenSnapshots(e.db))
 	sb.WriteString("|phys=" + physString(phys))
 	fmt.Fprintf(&sb, "|gc=%d|ret=%v|ic=%d|", nitro.VerifLastGCSn(e.db), nitro.VerifRetired(e.db), nitro.VerifItemsCount(e.db))
 	for _, w := range e.ws {
